@@ -238,6 +238,21 @@ def param_of_arg(callee: FunctionInfo, call: ast.Call, var: str) -> str | None:
     return None
 
 
+def param_of_arg_expr(callee: FunctionInfo, call: ast.Call, param: str) -> ast.expr | None:
+    """The argument expression a call passes for ``param`` (None when it is not passed)."""
+    params = callee.params
+    if param not in params:
+        return None
+    shift = 1 if params and params[0] in ("self", "cls") else 0
+    i = params.index(param) - shift
+    if 0 <= i < len(call.args) and not any(isinstance(a, ast.Starred) for a in call.args[: i + 1]):
+        return call.args[i]
+    for kw in call.keywords:
+        if kw.arg == param:
+            return kw.value
+    return None
+
+
 def call_arg(call: ast.Call, idx: int, name: str | None) -> ast.expr | None:
     if any(isinstance(a, ast.Starred) for a in call.args[: idx + 1]):
         raise Unsupported(f"starred arguments at `{short(call, 60)}`")
@@ -534,7 +549,7 @@ def r2_resolver_totality(corpus: Corpus, rep: Report, tier: str):
 
 
 class PState:
-    __slots__ = ("nulls", "marks", "warns", "taint", "flags", "events", "trail", "empty", "hollow", "unver", "known", "alias")
+    __slots__ = ("nulls", "marks", "warns", "taint", "flags", "events", "trail", "empty", "hollow", "unver", "known", "alias", "ph")
 
     def __init__(self):
         self.nulls: dict[str, str] = {}
@@ -546,6 +561,7 @@ class PState:
         self.trail: tuple = ()
         self.empty: frozenset = frozenset()  # names bound to the constant ""
         self.hollow: frozenset = frozenset()  # names bound to nodes built from empty text only
+        self.ph: frozenset = frozenset()  # names holding (a wrapper of) a copy of the link's placeholder text node, maybe empty
         self.alias: dict = {}  # boolean flag name -> (test expression it was bound to, names the expression reads)
         self.known: frozenset = frozenset()  # membership tests already decided on this path: (text, truth, names)
         self.unver: frozenset = frozenset()  # names holding the *requested* target id (node["reftargetid"]), not a registry id
@@ -556,6 +572,7 @@ class PState:
         s.marks, s.warns, s.taint, s.flags, s.events, s.trail = self.marks, self.warns, self.taint, self.flags, self.events, self.trail
         s.empty, s.hollow, s.unver, s.known = self.empty, self.hollow, self.unver, self.known
         s.alias = dict(self.alias)
+        s.ph = self.ph
         return s
 
 
@@ -572,6 +589,13 @@ class Enumerator:
         self.pv = pending
         self.sink_names = sink_names
         self.registry_vars = self._registry_vars()
+        # names bound to a regular-file test (is_file / isfile)
+        self.filetest_vars: set[str] = set()
+        for n in fi.local_nodes():
+            if isinstance(n, (ast.Assign, ast.AnnAssign)) and n.value is not None:
+                tg = n.targets[0] if isinstance(n, ast.Assign) else n.target
+                if isinstance(tg, ast.Name) and any(isinstance(x, ast.Call) and isinstance(x.func, ast.Attribute) and x.func.attr in FILE_TESTS for x in ast.walk(n.value)):
+                    self.filetest_vars.add(tg.id)
         # names whose nullness is tracked: bound somewhere to None or to a 'may answer None' lookup
         self.null_tested: set[str] = set()
         for n in fi.local_nodes():
@@ -628,6 +652,21 @@ class Enumerator:
                 return True
         return False
 
+    def _defs_of(self, name: str) -> list[ast.expr]:
+        return [v for _, v, pos in assignments_to(self.fi, name) if pos is None]
+
+    def _text_only_node(self, a: ast.expr) -> bool:
+        """The expression is a plain docutils node (not a pending_xref / download_reference)."""
+        vals = [a]
+        if isinstance(a, ast.Name):
+            vals = [v for _, v, pos in assignments_to(self.fi, a.id) if pos is None]
+            if not vals:
+                return False
+        for v in vals:
+            if not (isinstance(v, ast.Call) and self.fi.module.resolve(dotted(v.func) or "").startswith("docutils.nodes.")):
+                return False
+        return True
+
     @staticmethod
     def _in_handler(n: ast.AST) -> bool:
         x = parent(n)
@@ -655,6 +694,19 @@ class Enumerator:
         if isinstance(e, ast.IfExp):
             return self.is_request_id(e.body, st) or self.is_request_id(e.orelse, st)
         return False
+
+    def is_placeholder(self, e: ast.AST | None, st: PState) -> bool:
+        """A copy of the link's text placeholder PV[0] (empty for a link written without text), or a name holding one."""
+        pv = self.pv
+        if e is None or pv is None:
+            return False
+        while isinstance(e, ast.Call) and dotted(e.func) in ("cast", "typing.cast", "t.cast") and len(e.args) == 2:
+            e = e.args[1]
+        if isinstance(e, ast.Name):
+            return e.id in st.ph
+        if isinstance(e, ast.Call) and isinstance(e.func, ast.Attribute) and e.func.attr in ("deepcopy", "copy") and not e.args:
+            e = e.func.value
+        return isinstance(e, ast.Subscript) and isinstance(e.value, ast.Name) and e.value.id == pv and isinstance(e.slice, ast.Constant) and e.slice.value == 0
 
     def is_hollow(self, e: ast.AST | None, st: PState) -> bool:
         """A node statically known to carry no text: built from the constant "" only (or wrapping such a node)."""
@@ -715,6 +767,10 @@ class Enumerator:
             return {"T" if x == "F" else "F" for x in r}
         if isinstance(t, ast.Name):
             v = st.nulls.get(t.id)
+            if v is None:
+                for text, truth, _ in st.known:
+                    if text == f"bool:{t.id}":
+                        return {"T"} if truth else {"F"}
             return {"F"} if v == "none" else ({"T"} if v == "some" else both)
         if isinstance(t, ast.Compare) and len(t.ops) == 1 and isinstance(t.left, ast.Name) and isinstance(t.comparators[0], ast.Constant) and t.comparators[0].value is None:
             v = st.nulls.get(t.left.id)
@@ -746,13 +802,26 @@ class Enumerator:
     def branch_effects(self, st: PState, test: ast.expr, outcome: bool) -> PState:
         s = st
         test = self._subst(test, st)
-        tested = {n.id for n in ast.walk(test) if isinstance(n, ast.Name)} & (s.hollow | s.empty)
+        tested = {n.id for n in ast.walk(test) if isinstance(n, ast.Name)} & (s.hollow | s.empty | s.ph)
         if tested:
             # the code inspects the (possibly empty) text itself: emptiness is no longer a static fact
             s = s.copy()
             s.hollow = s.hollow - tested
             s.empty = s.empty - tested
+            s.ph = s.ph - tested
         for e, pol in facts(test, outcome):
+            if isinstance(e, ast.Name) and not any(k[0] == f"bool:{e.id}" for k in s.known):
+                s = s.copy()
+                s.known = s.known | {(f"bool:{e.id}", pol, frozenset({e.id}))}  # same unmodified name tested twice
+            if not pol and self.pv is None:
+                ft = None
+                if isinstance(e, ast.Name) and e.id in self.filetest_vars:
+                    ft = e.id
+                elif isinstance(e, ast.Call) and isinstance(e.func, ast.Attribute) and e.func.attr in FILE_TESTS:
+                    ft = unparse(e)
+                if ft is not None:
+                    s = s.copy()
+                    s.marks = s.marks | {f"nofile:{ft}"}  # the destination does not name a regular file
             if pol and isinstance(e, ast.Compare) and len(e.ops) == 1 and isinstance(e.ops[0], ast.In) and isinstance(e.left, ast.Constant) and isinstance(e.left.value, str) and e.left.value and set(e.left.value) <= IMPOSSIBLE_PATH_CHARS:
                 s = s.copy()
                 s.marks = s.marks | {f"unusable:{unparse(e)}"}  # e.g. NUL: can never name a file or document
@@ -777,7 +846,7 @@ class Enumerator:
                 if miss:
                     s = s.copy()
                     s.marks = s.marks | {f"miss:{unparse(e.left)} not in {unparse(e.comparators[0])}"}
-            if self.pv is not None and not pol:
+            if self.pv is not None:
                 x = e
                 if isinstance(x, ast.Call) and isinstance(x.func, ast.Attribute) and x.func.attr == "get" and x.args:
                     key = x.args[0]
@@ -789,7 +858,7 @@ class Enumerator:
                     continue
                 if isinstance(recv, ast.Name) and recv.id == self.pv and isinstance(key, ast.Constant) and key.value == "refexplicit":
                     s = s.copy()
-                    s.flags = s.flags | {"implicit"}
+                    s.flags = s.flags | {"explicit" if pol else "implicit"}
         return s
 
     def _bind(self, s: PState, n, targets, val: ast.expr, depth: int = 0) -> list[PState]:
@@ -813,6 +882,7 @@ class Enumerator:
             if isinstance(tg, ast.Name):
                 s.taint = (s.taint | {tg.id}) if tval else (s.taint - {tg.id})
                 s.hollow = (s.hollow | {tg.id}) if self.is_hollow(val, s) else (s.hollow - {tg.id})
+                s.ph = (s.ph | {tg.id}) if self.is_placeholder(val, s) else (s.ph - {tg.id})
                 if self.is_request_id(val, s):
                     s.unver = s.unver | {tg.id}
                     s.events = s.events + (("unver-assign", n, False, False),)
@@ -948,6 +1018,10 @@ class Enumerator:
         s = st.copy()
         cfg = self.cfg
         in_try = any(isinstance(x, tuple) and x[0] == "H" for x in cfg.succ.get(n, []))
+        for e_ in header_exprs(n):
+            for x in ast.walk(e_):
+                if isinstance(x, ast.Attribute) and x.attr in ("labels", "anonlabels") and isinstance(x.ctx, ast.Load):
+                    s.events = s.events + ((f"lookup:{x.attr}", x, False, False),)
         for call in node_calls(n):
             if xref_missing_warning(call, self.fi):
                 if in_try:
@@ -984,11 +1058,22 @@ class Enumerator:
             f = call.func
             if self.pv is not None and isinstance(f, ast.Attribute) and f.attr == "replace_self" and isinstance(f.value, ast.Name) and f.value.id == self.pv:
                 arg = call.args[0] if call.args else None
-                s.events = s.events + (("replace", call, bool(arg is not None and self.tainted(arg, s)), self.is_hollow(arg, s)),)
+                s.events = s.events + (("replace", call, bool(arg is not None and self.tainted(arg, s)), "ph" if self.is_placeholder(arg, s) else self.is_hollow(arg, s)),)
             elif self.pv is not None and isinstance(f, ast.Attribute) and f.attr == "replace" and unparse(f.value) == f"{self.pv}.parent" and len(call.args) == 2:
-                s.events = s.events + (("replace", call, self.tainted(call.args[1], s), self.is_hollow(call.args[1], s)),)
+                s.events = s.events + (("replace", call, self.tainted(call.args[1], s), "ph" if self.is_placeholder(call.args[1], s) else self.is_hollow(call.args[1], s)),)
+            hc = self_callee(self.c, self.fi, call)
+            if hc is not None and not hc.is_lambda:
+                for a_ in call.args:
+                    if isinstance(a_, ast.Name) and a_.id in (s.ph | s.hollow):
+                        p_ = param_of_arg(hc, call, a_.id)
+                        if p_ is not None and any((isinstance(x, ast.Attribute) and x.attr == "children" and unparse(x.value).split("[")[0] == p_) or (isinstance(x, ast.Call) and isinstance(x.func, ast.Attribute) and x.func.attr in ("append", "extend", "insert") and unparse(x.func.value).split("[")[0] == p_) for x in hc.local_nodes()):
+                            # a helper inspects / fills the node (e.g. an extracted "ensure the node has some content")
+                            s.ph = s.ph - {a_.id}
+                            s.hollow = s.hollow - {a_.id}
             nm = self_call_name(call)
             if nm is not None and nm in self.sink_names:
+                if nm == "_process_wrap_node" and call.args and self._text_only_node(call.args[0]):
+                    nm = "_process_wrap_node:text-only"  # no reference is created: the link is given up, its text kept
                 s.events = s.events + ((nm, call, False, False),)
         outs = [s]
         # bindings
@@ -1009,6 +1094,10 @@ class Enumerator:
                 if self.tainted(c.args[-1], s):
                     s.taint = s.taint | {c.func.value.id}
                 s.hollow = s.hollow - {c.func.value.id}
+                if c.func.value.id in s.ph:
+                    s.ph = s.ph - {c.func.value.id}  # something was added to the placeholder copy
+                elif self.is_placeholder(c.args[-1], s) and len(c.args) == 1 and not any(isinstance(x, ast.Call) and _docutils_ctor_with_text(self.fi, x) for x in self._defs_of(c.func.value.id)):
+                    s.ph = s.ph | {c.func.value.id}  # an otherwise empty wrapper around the placeholder copy
         elif isinstance(n, ast.For):
             for el in ast.walk(n.target):
                 if isinstance(el, ast.Name):
@@ -1077,6 +1166,13 @@ class Enumerator:
 
 def _depth_of(en) -> int:
     return getattr(en, "depth", 0)
+
+
+def _docutils_ctor_with_text(fi: FunctionInfo, call: ast.Call) -> bool:
+    """A docutils node constructor that is given text or children (positional arguments that are not all '')."""
+    if not fi.module.resolve(dotted(call.func) or "").startswith("docutils.nodes."):
+        return False
+    return any(not (isinstance(a, ast.Constant) and a.value == "") for a in call.args)
 
 
 def _may_warn_missing(corpus: Corpus, fi: FunctionInfo, seen: set) -> bool:
@@ -1220,16 +1316,21 @@ def _judge_paths(rep: Report, rule_id: str, fi: FunctionInfo, en: Enumerator, re
             rep.violation(rule_id, k, site, what, describe(cfg, s.trail))
         if text_rule:
             k = f"{fi.fq}|{label}|{cls}|replacement has text"
-            hol = [(s, e) for s in sts for e in s.events if e[0] == "replace" and e[3]]
+            hol = [(s, e) for s in sts for e in s.events if e[0] == "replace" and e[3] and not (e[3] == "ph" and "explicit" in s.flags)]
             if not hol:
-                rep.ok(rule_id, k, fi.site(), "no path replaces the link by a node built from the empty string only")
+                rep.ok(rule_id, k, fi.site(), "no path replaces the link by a node built from the empty string only, or by the bare copy of its (possibly empty) text placeholder")
             else:
                 s, ev = hol[0]
+                why = (
+                    "puts a bare copy of the link's text placeholder in its place, which is empty for a link written without text, and nothing on the path inspected or filled it"
+                    if ev[3] == "ph"
+                    else "inserts a reference whose only text is the constant \"\" (no explicit text, no title, no fallback literal)"
+                )
                 rep.violation(
                     rule_id,
                     k,
                     fi.module.site(ev[1]),
-                    f"on a path of this class `{short(ev[1], 50)}` inserts a reference whose only text is the constant \"\" (no explicit text, no title, no fallback literal): the link is rendered without any visible text",
+                    f"on a path of this class `{short(ev[1], 50)}` {why}: the link is rendered without any visible text",
                     describe(cfg, s.trail),
                 )
             k = f"{fi.fq}|{label}|{cls}|text kept"
@@ -1421,10 +1522,11 @@ def r3_exactly_one_warning(corpus: Corpus, rep: Report, tier: str):
         res3 = en3.paths(ENTRY, [EXIT])
 
         def cls_r(st: PState) -> str:
-            gave_up = any(e[0] == "render_link_url" for e in st.events)
-            no_sink = not any(e[0] in ("_process_wrap_node", "render_link_url", "render_link_anchor") for e in st.events)
+            gave_up = any(e[0] in ("render_link_url", "_process_wrap_node:text-only") for e in st.events)
+            no_sink = not any(e[0] in ("_process_wrap_node", "_process_wrap_node:text-only", "render_link_url", "render_link_anchor") for e in st.events)
             if st.marks and gave_up:
-                return "failed:" + ",".join(sorted(st.marks)) + "->render_link_url"
+                how = "render_link_url" if any(e[0] == "render_link_url" for e in st.events) else "text only"
+                return "failed:" + ",".join(sorted(st.marks)) + "->" + how
             if st.marks and no_sink:
                 return "failed:" + ",".join(sorted(st.marks)) + "->nothing rendered"  # R1 reports the dropped link
             return "resolved"
@@ -1641,6 +1743,13 @@ def r1_classification_totality(corpus: Corpus, rep: Report, tier: str):
             rep.saw_call(fi.module.site(call))
             a = call_arg(call, 0, "wrap_node")
             k = f"{fi.fq}|wrap node passed to _process_wrap_node is freshly constructed"
+            if isinstance(a, ast.Call):
+                kd = _wrap_ctor_expr(a, fi) or ("text-only " + fi.module.resolve(dotted(a.func) or "").rsplit(".", 1)[-1] if fi.module.resolve(dotted(a.func) or "").startswith("docutils.nodes.") else None)
+                if kd:
+                    rep.ok("C12.R1", k + f"|{kd}", fi.module.site(call), f"constructed in the call: {kd}")
+                else:
+                    rep.violation("C12.R1", k, fi.module.site(call), f"`{short(a, 50)}` is not a freshly constructed node")
+                continue
             if not isinstance(a, ast.Name):
                 rep.error("C12.R1", f"{fi.qualname}: first argument of _process_wrap_node is not a local name")
                 continue
@@ -1656,9 +1765,6 @@ def r1_classification_totality(corpus: Corpus, rep: Report, tier: str):
     # a destination is classified as a local file (download) only after a regular-file test
     for fi in handlers:
         ctors = [c for c in fi.local_nodes() if isinstance(c, ast.Call) and _wrap_ctor(c, fi)]
-        project_wide = [c for c in ctors if _wrap_ctor(c, fi) == "pending_xref" and "refdomain" in _ctor_keys(fi, c) and isinstance(_ctor_keys(fi, c)["refdomain"], ast.Constant) and _ctor_keys(fi, c)["refdomain"].value is None]
-        if not project_wide:
-            continue  # e.g. the explicit path: scheme - no classification to make
         cfg = get_cfg(fi)
         for c in ctors:
             if _wrap_ctor(c, fi) != "download_reference":
@@ -1674,7 +1780,7 @@ def r1_classification_totality(corpus: Corpus, rep: Report, tier: str):
             elif preds & EXIST_TESTS:
                 rep.violation("C12.R1", k, site, f"the destination is treated as a local non-document file after an existence test only ({sorted(preds & EXIST_TESTS)}), not a regular-file test: a destination that names an existing directory becomes a download_reference instead of going to project-wide (document / label) resolution")
             else:
-                rep.error("C12.R1", f"{fi.qualname}: the download_reference outcome is not under a recognisable file test")
+                rep.violation("C12.R1", k, site, "a download_reference is created without a regular-file test of the destination: for a file that does not exist Sphinx's download collector answers with its own 'download file not readable' (not a myst.xref_missing warning, not reachable by suppress_warnings / nitpick_ignore), and a directory is offered as a download")
     # _process_wrap_node: attach once, inner once, children rendered iff explicit
     rep.saw_function(pw.fq)
     params = pw.params
@@ -2023,41 +2129,108 @@ def _reaching(fi: FunctionInfo, name: str, at) -> list[tuple[ast.stmt, ast.expr,
     return out
 
 
-def _encoding(fi: FunctionInfo, e: ast.AST | None, at, busy: frozenset = frozenset()) -> set[str]:
-    """Does the value derive from the token's href RAW (still percent-encoded by markdown-it's normalizeLink)
-    or DECoded through normalizeLinkText?  Flow-sensitive over local bindings; unknown leaves contribute nothing."""
-    if e is None or len(busy) > 12:
+DECODERS = {"unquote": "urllib.parse.unquote: complete percent-decoding", "unquote_to_bytes": "complete"}
+PARTIAL_DECODERS = {"normalizeLinkText": "markdown-it's display helper: leaves reserved characters (%25, %23, %2F ...) percent-encoded"}
+
+
+def _encoding(fi: FunctionInfo, e: ast.AST | None, at, busy: frozenset = frozenset(), env: dict | None = None) -> set[str]:
+    """Does the value derive from the token's href RAW (still percent-encoded by markdown-it's normalizeLink),
+    PARTIALly decoded (normalizeLinkText, meant for display: reserved characters stay encoded) or DECoded
+    (urllib.parse.unquote)?  Flow-sensitive over local bindings, follows private helpers of the module
+    (parameters bound to the caller's kinds, tuple results element-wise); unknown leaves contribute nothing."""
+    if e is None or len(busy) > 14:
         return set()
-    if isinstance(e, ast.Call) and isinstance(e.func, ast.Attribute) and e.func.attr == "normalizeLinkText":
-        return {"DEC"}
-    if isinstance(e, ast.Call) and isinstance(e.func, ast.Attribute) and e.func.attr == "attrGet" and e.args and isinstance(e.args[0], ast.Constant) and e.args[0].value == "href":
-        return {"RAW"}
+    if isinstance(e, ast.Call):
+        nm = e.func.attr if isinstance(e.func, ast.Attribute) else (e.func.id if isinstance(e.func, ast.Name) else "")
+        if nm in DECODERS:
+            return {"DEC"}
+        if nm in PARTIAL_DECODERS:
+            return {"PARTIAL"}
+        if nm == "attrGet" and e.args and isinstance(e.args[0], ast.Constant) and e.args[0].value == "href":
+            return {"RAW"}
     if isinstance(e, ast.Subscript) and isinstance(e.slice, ast.Constant) and e.slice.value == "href" and isinstance(e.value, ast.Attribute) and e.value.attr == "attrs":
         return {"RAW"}
     if isinstance(e, ast.Name):
-        key = (e.id, id(at))
+        key = (fi.fq, e.id, id(at))
         if key in busy:
             return set()
         out: set[str] = set()
         cfg = get_cfg(fi)
-        for d, val, pos in _reaching(fi, e.id, at):
-            out |= _encoding(fi, val, d, busy | {key})
+        reaching = _reaching(fi, e.id, at)
+        for d, val, pos in reaching:
+            if isinstance(pos, int) and isinstance(val, ast.Call):
+                els = _helper_element_encoding(fi, val, d, busy | {key}, env)
+                if els is not None and pos < len(els):
+                    out |= els[pos]
+                    continue
+            if isinstance(pos, int) and isinstance(val, (ast.Tuple, ast.List)) and pos < len(val.elts):
+                out |= _encoding(fi, val.elts[pos], d, busy | {key}, env)
+                continue
+            out |= _encoding(fi, val, d, busy | {key}, env)
+        if env is not None and e.id in env:
+            # a parameter: its entry value reaches unless every path rebinds it first
+            dstmts = [cfg.stmt_of(st) for st, _, _ in assignments_to(fi, e.id) if st is not None]
+            if not dstmts or cfg.paths_avoiding(ENTRY, at, lambda n: any(n is d for d in dstmts if d is not at)):
+                out |= env[e.id]
         return out
     if isinstance(e, ast.IfExp):
-        return _encoding(fi, e.body, at, busy) | _encoding(fi, e.orelse, at, busy)
+        return _encoding(fi, e.body, at, busy, env) | _encoding(fi, e.orelse, at, busy, env)
     if isinstance(e, ast.Compare):
         return set()
     out = set()
     if isinstance(e, ast.Call):
+        els = _helper_element_encoding(fi, e, at, busy, env)
+        if els is not None:
+            for x in els:
+                out |= x
+            return out
         subs = list(e.args) + [k.value for k in e.keywords]
-        if isinstance(e.func, ast.Attribute) and not (isinstance(e.func.value, ast.Name) and e.func.value.id in ("self", "os", "nodes")):
+        if isinstance(e.func, ast.Attribute) and not (isinstance(e.func.value, ast.Name) and e.func.value.id in ("self", "cls", "os", "nodes", "posixpath")):
             subs.append(e.func.value)
     else:
         subs = list(ast.iter_child_nodes(e))
     for c in subs:
         if isinstance(c, ast.expr):
-            out |= _encoding(fi, c, at, busy)
+            out |= _encoding(fi, c, at, busy, env)
     return out
+
+
+def _helper_element_encoding(fi: FunctionInfo, call: ast.Call, at, busy: frozenset, env: dict | None) -> list[set[str]] | None:
+    """Kinds of the (tuple) result of a private helper of the module, element by element."""
+    lc = _local_callee(fi, call)
+    if lc is None or len(busy) > 10:
+        return None
+    callee, ci = lc
+    if callee.is_lambda or ("call", callee.fq) in busy:
+        return None
+    params = callee.params
+    shift = 1 if params and params[0] in ("self", "cls") and not (isinstance(call.func, ast.Attribute) and isinstance(call.func.value, ast.Name) and call.func.value.id in fi.module.classes and "staticmethod" in callee.decorators()) else 0
+    if "staticmethod" in callee.decorators():
+        shift = 0
+    env2: dict[str, set[str]] = {}
+    for i, a in enumerate(call.args):
+        if isinstance(a, ast.Starred) or i + shift >= len(params):
+            return None
+        env2[params[i + shift]] = _encoding(fi, a, at, busy, env)
+    for kw in call.keywords:
+        if kw.arg is None or kw.arg not in params:
+            return None
+        env2[kw.arg] = _encoding(fi, kw.value, at, busy, env)
+    rets = _returned_elements(callee, ci)
+    if not rets or len({len(r) for r in rets}) != 1:
+        return None
+    ccfg = get_cfg(callee)
+    n = len(rets[0])
+    out: list[set[str]] = [set() for _ in range(n)]
+    ret_stmts = [x for x in callee.local_nodes() if isinstance(x, ast.Return) and x.value is not None]
+    for r, stmt in zip(rets, ret_stmts):
+        for i, el in enumerate(r):
+            out[i] |= _encoding(callee, el, ccfg.stmt_of(stmt), busy | {("call", callee.fq)}, env2)
+    return out
+
+
+def _split_receivers(fi: FunctionInfo) -> list[tuple[ast.Call, ast.expr]]:
+    return [(c, c.func.value) for c in fi.local_nodes() if isinstance(c, ast.Call) and isinstance(c.func, ast.Attribute) and c.func.attr in ("split", "partition", "rsplit", "rpartition") and c.args and isinstance(c.args[0], ast.Constant) and c.args[0].value == "#"]
 
 
 def _writers(corpus: Corpus):
@@ -2237,7 +2410,44 @@ def _hash_part(fi: FunctionInfo, e: ast.expr | None, depth: int = 0, busy: froze
     if isinstance(e, ast.Constant):
         return {"NONE"} if e.value is None else {"CONST"}
     if isinstance(e, ast.IfExp):
-        return _hash_part(fi, e.body, depth + 1, busy) | _hash_part(fi, e.orelse, depth + 1, busy)
+        b, o = _hash_part(fi, e.body, depth + 1, busy), _hash_part(fi, e.orelse, depth + 1, busy)
+        # `path if fragment is None else f"{path}#{fragment}"`: without a fragment the path IS the whole destination
+        t = e.test
+        neg = False
+        while isinstance(t, ast.UnaryOp) and isinstance(t.op, ast.Not):
+            t, neg = t.operand, not neg
+        absent_in_body = None
+        if isinstance(t, ast.Compare) and len(t.ops) == 1 and isinstance(t.comparators[0], ast.Constant) and t.comparators[0].value is None and isinstance(t.ops[0], (ast.Is, ast.IsNot)):
+            if _hash_part(fi, t.left, depth + 1, busy) <= {"ID", "NONE"}:
+                absent_in_body = isinstance(t.ops[0], ast.Is) != neg
+        elif isinstance(t, ast.Name) and _hash_part(fi, t, depth + 1, busy) <= {"ID", "NONE"}:
+            absent_in_body = neg
+        if absent_in_body is True and b == {"PATH"}:
+            b = {"WHOLE"}
+        if absent_in_body is False and o == {"PATH"}:
+            o = {"WHOLE"}
+        return b | o
+    if isinstance(e, (ast.JoinedStr, ast.BinOp)):
+        # "{path}#{fragment}" / path + "#" + fragment: the destination put together again
+        parts: list = []
+        if isinstance(e, ast.JoinedStr):
+            parts = [v.value if isinstance(v, ast.FormattedValue) else v for v in e.values]
+        else:
+            def flat(x):
+                if isinstance(x, ast.BinOp) and isinstance(x.op, ast.Add):
+                    flat(x.left)
+                    flat(x.right)
+                else:
+                    parts.append(x)
+            flat(e)
+        kinds = [_hash_part(fi, x, depth + 1, busy) for x in parts]
+        has_sep = any(isinstance(x, ast.Constant) and isinstance(x.value, str) and "#" in x.value for x in parts)
+        flatk = [k for k in kinds if k != {"CONST"}]
+        if has_sep and len(flatk) == 2 and flatk[0] == {"PATH"} and flatk[1] <= {"ID", "NONE"} and "ID" in flatk[1]:
+            return {"WHOLE"}
+        if len(flatk) == 1:
+            return flatk[0]
+        return {"?"} if flatk else {"CONST"}
     if isinstance(e, ast.BoolOp):
         out: set[str] = set()
         for v in e.values:
@@ -2423,9 +2633,42 @@ def r5_writer_reader_agreement(corpus: Corpus, rep: Report, tier: str):
                 dk = unparse(keys["refdomain"]) if ctor and "refdomain" in keys else "-"
                 k = f"{m.fq}|{label}|refdomain={dk}|percent-decoded"
                 if "RAW" in enc:
-                    rep.violation("C12.R5", k, m.module.site(call), f"`{unparse(v)}` reaches {label.replace('|', '.')} from token.attrGet('href') without passing normalizeLinkText: markdown-it percent-encodes the href, so a non-ASCII heading anchor / file name ('#übersicht' -> '%C3%BCbersicht') never matches the registry it is looked up in")
+                    rep.violation("C12.R5", k, m.module.site(call), f"`{unparse(v)}` reaches {label.replace('|', '.')} from token.attrGet('href') without being percent-decoded (urllib.parse.unquote): markdown-it percent-encodes the href, so a non-ASCII heading anchor / file name ('#übersicht' -> '%C3%BCbersicht') never matches the registry it is looked up in")
+                elif "PARTIAL" in enc:
+                    rep.violation("C12.R5", k, m.module.site(call), f"`{unparse(v)}` reaches {label.replace('|', '.')} decoded only by normalizeLinkText, markdown-it's *display* helper, which leaves reserved characters percent-encoded: a file `100%.md` / `c#.md` (only linkable as 100%25.md / c%23.md) is never found")
                 else:
                     rep.ok("C12.R5", k, m.module.site(call), f"{unparse(v)}: decoded")
+    # the destination is split at '#' while still encoded (a decoded '%23' in a file name must not become the separator)
+    for m in rcls.methods.values():
+        cfgm = None
+        for c, recv in _split_receivers(m):
+            cfgm = cfgm or get_cfg(m)
+            try:
+                at = cfgm.stmt_of(c)
+            except Unsupported:
+                continue
+            # the receiver's kind: inside a helper the parameter's kind comes from its call sites
+            envp: dict[str, set[str]] = {}
+            for prm in m.params:
+                kinds: set[str] = set()
+                for other in rcls.methods.values():
+                    for cc in [x for x in other.local_nodes() if isinstance(x, ast.Call)]:
+                        lc = _local_callee(other, cc)
+                        if lc is not None and lc[0].fq == m.fq:
+                            pn = param_of_arg_expr(m, cc, prm)
+                            if pn is not None:
+                                kinds |= _encoding(other, pn, get_cfg(other).stmt_of(cc))
+                if kinds:
+                    envp[prm] = kinds
+            enc = _encoding(m, recv, at, frozenset(), envp or None)
+            if not enc:
+                continue
+            n_enc += 1
+            k = f"{m.fq}|{unparse(recv)}.{c.func.attr}('#')|split before decoding"
+            if enc <= {"RAW"}:
+                rep.ok("C12.R5", k, m.module.site(c), "the still-encoded href is split; the parts are decoded afterwards")
+            else:
+                rep.violation("C12.R5", k, m.module.site(c), f"`{short(c, 50)}` splits a destination that was already percent-decoded ({sorted(enc)}): a file name containing '#' (written c%23.md) is cut at the decoded '#', and its tail is taken for a heading anchor")
     if n_enc < 5:
         rep.error("C12.R5", f"only {n_enc} href-derived attribute value(s) found in SphinxRenderer (8 on the pinned tree)")
     # relfn2path gets the part before '#'
@@ -2582,6 +2825,34 @@ def _from_nametypes(fi: FunctionInfo, e: ast.expr, store: ast.AST, depth: int = 
     return False
 
 
+def _keyed_by_docutils_name(f: FunctionInfo, st: ast.AST) -> bool:
+    """The store's key is a docutils target name: bound while iterating document.nametypes / document.nameids
+    (or their items / keys), or read from a node's ``names``."""
+    key = st.slice if isinstance(st, ast.Subscript) else (st.args[0] if isinstance(st, ast.Call) and st.args else st)
+    if isinstance(st, ast.expr) and not isinstance(st, (ast.Subscript, ast.Call)):
+        key = st  # the key expression of a dict comprehension
+
+    def named(e: ast.AST, depth: int = 0) -> bool:
+        if depth > 4:
+            return False
+        for x in ast.walk(e):
+            if isinstance(x, ast.Subscript) and isinstance(x.slice, ast.Constant) and x.slice.value == "names":
+                return True
+        if isinstance(e, ast.Name):
+            for n in f.local_nodes():
+                if isinstance(n, (ast.For, ast.comprehension)) and any(isinstance(a, ast.Attribute) and a.attr in ("nametypes", "nameids") for a in ast.walk(n.iter)):
+                    tg = n.target
+                    first = tg.elts[0] if isinstance(tg, ast.Tuple) and tg.elts else tg
+                    if isinstance(first, ast.Name) and first.id == e.id:
+                        return True
+            for _, v, pos in assignments_to(f, e.id):
+                if pos is None and named(v, depth + 1):
+                    return True
+        return False
+
+    return named(key)
+
+
 def _has_handoff(corpus: Corpus, f: FunctionInfo, depth: int = 0) -> bool:
     for c in f.local_nodes():
         if isinstance(c, ast.Call):
@@ -2647,8 +2918,8 @@ def r7_local_table_explicit_only(corpus: Corpus, rep: Report, tier: str):
         raise Unsupported("ResolveAnchorIds.apply: hand-off is not inside the link loop")
     tables = set()
     for n in ast.walk(loop):
-        if isinstance(n, ast.Compare) and len(n.ops) == 1 and isinstance(n.ops[0], (ast.In, ast.NotIn)) and isinstance(n.comparators[0], ast.Name):
-            tables.add(n.comparators[0].id)
+        if isinstance(n, ast.Compare) and len(n.ops) == 1 and isinstance(n.ops[0], (ast.In, ast.NotIn)) and isinstance(n.comparators[0], ast.Name) and not isinstance(n.left, ast.Constant):
+            tables.add(n.comparators[0].id)  # (`"attr" in refnode` is an attribute test, not a table lookup)
     n_judged = 0
     for tname in sorted(tables):
         for f, st in _table_stores(corpus, fi, tname):
@@ -2656,6 +2927,11 @@ def r7_local_table_explicit_only(corpus: Corpus, rep: Report, tier: str):
             cfg = get_cfg(f)
             k = f"{f.fq}|{tname}[...] = ...|only for explicit targets"
             site = f.module.site(st)
+            if not _keyed_by_docutils_name(f, st):
+                # e.g. the heading-slug table: its keys are slugs the renderer gave to anchored headings, not
+                # docutils names - explicitness does not apply
+                rep.listed("C12.R7", k + "|not keyed by a docutils name", site, "entries are not docutils target names")
+                continue
             gs = all_guards(cfg, st)
             n_judged += 1
             if any(pol and _from_nametypes(f, t, st) for t, pol in gs):
@@ -2800,6 +3076,22 @@ def _targetid_index(res: FunctionInfo) -> int | None:
             dd = assignments_to(res, v.value.value.id)
             if dd and all(any((isinstance(x, ast.Constant) and x.value == "myst_slugs") or (isinstance(x, ast.Attribute) and x.attr == "myst_slugs") for x in ast.walk(d[1])) for d in dd):
                 return v.slice.value
+    return None
+
+
+def _title_index(res: FunctionInfo, id_index: int | None) -> int | None:
+    """Index of the slug-tuple element the resolver uses as the implicit link text."""
+    for n in res.local_nodes():
+        if isinstance(n, ast.Assign) and isinstance(n.targets[0], ast.Tuple) and isinstance(n.value, ast.Subscript) and isinstance(n.value.value, ast.Name):
+            dd = assignments_to(res, n.value.value.id)
+            if dd and all(any((isinstance(x, ast.Constant) and x.value == "myst_slugs") or (isinstance(x, ast.Attribute) and x.attr == "myst_slugs") for x in ast.walk(d[1])) for d in dd):
+                cands = [i for i, el in enumerate(n.targets[0].elts) if isinstance(el, ast.Name) and el.id != "_" and i != id_index]
+                if len(cands) == 1:
+                    return cands[0]
+    # indexed reads: the index whose value flows into an inline node's text
+    for n in res.local_nodes():
+        if isinstance(n, ast.Assign) and isinstance(n.value, ast.Subscript) and isinstance(n.value.slice, ast.Constant) and isinstance(n.value.slice.value, int) and n.value.slice.value != id_index and isinstance(n.targets[0], ast.Name) and "text" in n.targets[0].id:
+            return n.value.slice.value
     return None
 
 
@@ -2950,6 +3242,51 @@ def r8_slug_registry_no_overwrite(corpus: Corpus, rep: Report, tier: str):
                     rep.ok("C12.R8", k, site, unparse(val.elts[idx]))
                 else:
                     rep.error("C12.R8", f"{m.qualname}: cannot trace where the recorded section id `{short(val.elts[idx], 40)}` comes from ({sorted(prov)})")
+    # the title recorded for a slug is read again from the tree after Sphinx's i18n transform replaced the titles
+    tidx = _title_index(res, idx)
+    locale_prio = 20
+    try:
+        sib = corpus.sibling("sphinx/transforms/i18n.py")
+        rep.saw_sibling(sib.rel)
+        lc = sib.classes.get("Locale")
+        for st_ in (lc.node.body if lc else []):
+            if isinstance(st_, ast.Assign) and isinstance(st_.targets[0], ast.Name) and st_.targets[0].id == "default_priority" and isinstance(st_.value, ast.Constant):
+                locale_prio = st_.value.value
+    except Exception:
+        pass
+    if tidx is None:
+        rep.error("C12.R8", "resolve_myst_ref_doc: cannot tell which element of the slug tuple is used as the implicit link text")
+    else:
+        k = f"{RESOLVER.split(':')[0].replace('sphinx_ext.myst_refs', 'myst_parser')}|slug registry titles|re-read from the tree after the i18n (Locale) transform"
+        found = None
+        late = None
+        base_fqs = {c.fq for c in corpus.mro(corpus.cls(BASE_R))} | {c.fq for c in corpus.subclasses(corpus.cls(BASE_R))}
+        for f in corpus.all_functions():
+            if f.is_lambda or (f.cls is not None and f.cls.fq in base_fqs):
+                continue  # the renderer records titles while parsing, before any transform runs
+            tabs = {nm for nm in {x.id for x in f.local_nodes() if isinstance(x, ast.Name)} if any(pos is None and any((isinstance(y, ast.Constant) and y.value == "myst_slugs") or (isinstance(y, ast.Attribute) and y.attr == "myst_slugs") for y in ast.walk(v)) for _, v, pos in assignments_to(f, nm))}
+            for stn in f.local_nodes():
+                if isinstance(stn, ast.Subscript) and isinstance(stn.ctx, ast.Store) and isinstance(stn.value, ast.Name) and stn.value.id in tabs:
+                    asg = parent(stn)
+                    val = asg.value if isinstance(asg, ast.Assign) else None
+                    if isinstance(val, ast.Tuple) and tidx < len(val.elts) and any(isinstance(y, ast.Call) and (dotted(y.func) or "").split(".")[-1] in ("clean_astext", "astext") for y in ast.walk(val.elts[tidx])):
+                        prio = None
+                        if f.cls is not None:
+                            for c_ in corpus.mro(f.cls):
+                                for st_ in c_.node.body:
+                                    if prio is None and isinstance(st_, ast.Assign) and isinstance(st_.targets[0], ast.Name) and st_.targets[0].id == "default_priority" and isinstance(st_.value, ast.Constant):
+                                        prio = st_.value.value
+                        if prio is None or prio > locale_prio:
+                            found = (f, stn, prio)
+                        else:
+                            late = (f, stn, prio)
+        if found:
+            rep.ok("C12.R8", k, found[0].module.site(found[1]), f"{found[0].qualname} (priority {found[2]} > Locale {locale_prio}) stores clean_astext(title) back into the registry")
+            rep.saw_function(found[0].fq)
+        elif late:
+            rep.violation("C12.R8", k, late[0].module.site(late[1]), f"{late[0].qualname} refreshes the titles at priority {late[2]}, not after sphinx.transforms.i18n.Locale ({locale_prio}): translated builds still show the source-language title as the text of `[](doc.md#heading)`")
+        else:
+            rep.violation("C12.R8", k, fin.site(), f"the titles in the slug registry are only recorded while parsing ({fin.qualname}); nothing re-reads them from the tree after sphinx.transforms.i18n.Locale (priority {locale_prio}) replaced the title nodes: with language/locale_dirs set, `[](doc.md#heading)` shows the untranslated title while the page, the toctree and `[](doc.md)` show the translated one")
     rep.expect_min("C12.R8", 1, "self._heading_slugs[slug] = ... in generate_heading_target")
 
 
@@ -3055,7 +3392,24 @@ def r9_label_keys_lowercased(corpus: Corpus, rep: Report, tier: str):
                 rep.error("C12.R9", f"{m.qualname}: cannot trace the case of `{unparse(key)}` looked up in {reg} ({sorted(kinds)})")
             else:
                 rep.ok("C12.R9", k, site, f"{sorted(kinds)}")
-    rep.expect_min("C12.R9", 2, "anonlabels.get(target) and labels.get(target) in _resolve_ref_nested")
+    # a label lookup gives up (returns None) only after the complete registry was consulted: every std label is in
+    # anonlabels, only labels with a title/caption are in labels (Sphinx StandardDomain.process_doc)
+    for m in ci.methods.values():
+        if m.is_lambda or not any(isinstance(x, ast.Attribute) and x.attr in ("labels", "anonlabels") for x in m.local_nodes()):
+            continue
+        en = Enumerator(corpus, m, "node" if "node" in m.params else None)
+        stops = [p_ for p_ in en.cfg.pred.get(EXIT, []) if isinstance(p_, ast.Return)]
+        gave_up = [(stop, st) for stop, st in en.paths(ENTRY, stops) if stop.value is None or (isinstance(stop.value, ast.Constant) and stop.value.value is None)]
+        if not gave_up:
+            continue
+        k = f"{m.fq}|gives up only after the complete label registry (anonlabels) was consulted"
+        bad = [(stop, st) for stop, st in gave_up if any(e[0].startswith("lookup:") for e in st.events) and not any(e[0] == "lookup:anonlabels" for e in st.events)]
+        if bad:
+            stop, st = bad[0]
+            rep.violation("C12.R9", k, m.module.site(stop), "a path returns None (target not found) after looking the name up in std-domain `labels` only: labels without a title or caption (`(name)=` before a paragraph, `:name:` on a note) are only in `anonlabels`, so `[](#name)` from another document warns 'target not found' although `[text](#name)` resolves", describe(en.cfg, st.trail))
+        else:
+            rep.ok("C12.R9", k, m.site(), f"{len(gave_up)} giving-up path(s)")
+    rep.expect_min("C12.R9", 3, "anonlabels.get(target) and labels.get(target) in _resolve_ref_nested, and its giving-up paths")
 
 
 # ---------------------------------------------------------------------------
@@ -3203,9 +3557,9 @@ def mutants(corpus: Corpus):
         add("c12-unknown-link-only-when-explicit", "C12.R1", sx, st, "if explicit or is_file:\n" + indent_of(f, st) + "    " + seg, expect="render_link_unknown")
     # --- R2 ---
     f = rf.func("MystReferenceResolver.resolve_myst_ref_doc")
-    st = _stmt_of(f, lambda n: isinstance(n, ast.Expr) and "replace_self" in unparse(n.value) and "deepcopy" in unparse(n.value))
-    add("c12-unknown-doc-left-pending", "C12.R2", rf, st, "pass", expect="resolve_myst_ref_doc", canary=True)
     iff = find_node(f, lambda n: isinstance(n, ast.If) and "all_docs" in unparse(n.test))
+    st = next((x for x in (iff.body if iff is not None else []) if isinstance(x, ast.Expr) and "replace_self" in unparse(x.value)), None)
+    add("c12-unknown-doc-left-pending", "C12.R2", rf, st, "pass", expect="resolve_myst_ref_doc", canary=True)
     ret = iff.body[-1] if iff is not None and isinstance(iff.body[-1], ast.Return) else None
     add("c12-unknown-doc-falls-through", "C12.R2", rf, ret, "pass", expect="twice")
     f = rf.func("MystReferenceResolver.run")
@@ -3222,8 +3576,12 @@ def mutants(corpus: Corpus):
         add("c12-fallback-warns-again", "C12.R3", rf, ap, ast.get_source_segment(rf.src, ap) + "\n" + indent_of(f, ap) + seg.replace("\n", "\n"), expect="warnings")
     add("c12-fallback-loses-text", "C12.R3", rf, ap, "newnode.append(nodes.literal(target, target))", expect="text kept")
     g = rf.func("MystReferenceResolver.resolve_myst_ref_doc")
-    st = _stmt_of(g, lambda n: isinstance(n, ast.Expr) and "replace_self" in unparse(n.value) and "deepcopy" in unparse(n.value))
+    iff_u = find_node(g, lambda n: isinstance(n, ast.If) and "all_docs" in unparse(n.test))
+    st = next((x for x in (iff_u.body if iff_u is not None else []) if isinstance(x, ast.Expr) and "replace_self" in unparse(x.value)), None)
     add("c12-unknown-doc-text-replaced-by-name", "C12.R3", rf, st, "node.replace_self(nodes.literal(ref_docname, ref_docname))", expect="text kept")
+    # revert of bc6e052: the placeholder copy is put in place without being inspected / filled
+    fill = next((x for x in (iff_u.body if iff_u is not None else []) if isinstance(x, ast.If) and "children" in unparse(x.test)), None)
+    add("c12-unknown-doc-placeholder-not-filled", "C12.R3", rf, fill, "pass", expect="replacement has text")
     st = _stmt_of(g, lambda n: isinstance(n, ast.Expr) and unparse(n.value).startswith("innernode.extend(") and "children" in unparse(n.value))
     add("c12-doc-link-nested-markup-dropped", "C12.R3", rf, st, "pass", expect="text kept")
     iff = find_node(g, lambda n: isinstance(n, ast.If) and isinstance(n.test, ast.Compare) and isinstance(n.test.ops[0], ast.NotIn) and "slug" in unparse(n.test))
@@ -3304,13 +3662,26 @@ def mutants(corpus: Corpus):
     if kv:
         add("c12-project-reftarget-is-path", "C12.R5", sx, kv[0].value, "path_dest", expect="path2doc")
     # class "destination-derived value compared with a registry without percent-decoding"
-    for meth, mid in (("render_link_unknown", "c12-unknown-href-not-decoded"), ("render_link_path", "c12-path-href-not-decoded")):
-        f = sx.func(f"SphinxRenderer.{meth}")
-        c = find_node(f, lambda n: isinstance(n, ast.Call) and isinstance(n.func, ast.Attribute) and n.func.attr == "normalizeLinkText" and len(n.args) == 1)
-        add(mid, "C12.R5", sx, c, ast.get_source_segment(sx.src, c.args[0]) if c is not None else "", expect="percent-decoded")
-    f = sx.func("SphinxRenderer.render_link_project")
-    st = _stmt_of(f, lambda n: isinstance(n, ast.Assign) and isinstance(n.value, ast.Call) and isinstance(n.value.func, ast.Attribute) and n.value.func.attr == "normalizeLinkText")
-    add("c12-project-href-not-decoded", "C12.R5", sx, st, "pass", expect="percent-decoded")
+    def _decoder_calls(fn):
+        cs = [n for n in fn.local_nodes() if isinstance(n, ast.Call) and (dotted(n.func) or "").split(".")[-1] in DECODERS and len(n.args) == 1]
+        cs.sort(key=lambda n: (n.lineno, n.col_offset))
+        return cs
+
+    f = sx.func("SphinxRenderer.render_link_path")
+    dc = _decoder_calls(f)
+    add("c12-path-href-not-decoded", "C12.R5", sx, dc[0] if dc else None, ast.get_source_segment(sx.src, dc[0].args[0]) if dc else "", expect="percent-decoded")
+    hlp = next((m_ for m_ in corpus.cls(SPHINX_R).methods.values() if m_.name not in ("render_link_path",) and len(_decoder_calls(m_)) >= 1 and _split_receivers(m_)), None)
+    if hlp is not None:
+        dcs = _decoder_calls(hlp)
+        add("c12-destination-path-not-decoded", "C12.R5", sx, dcs[0], ast.get_source_segment(sx.src, dcs[0].args[0]), expect="percent-decoded")
+        # revert of cd1f3bc: the display helper instead of a complete decode
+        add("c12-destination-decoded-for-display-only", "C12.R5", sx, dcs[0].func, "self.md.normalizeLinkText", expect="display")
+        if len(dcs) > 1:
+            add("c12-fragment-decoded-for-display-only", "C12.R5", sx, dcs[-1].func, "self.md.normalizeLinkText", expect="display")
+        sp, recv = _split_receivers(hlp)[0]
+        add("c12-destination-decoded-before-split", "C12.R5", sx, recv, f"unquote({unparse(recv)})", expect="split before decoding")
+    else:
+        out.append(("c12-destination-path-not-decoded", "no helper that splits and decodes the destination"))
     f = sx.func("SphinxRenderer.render_link_unknown")
     c = find_node(f, lambda n: isinstance(n, ast.Call) and unparse(n.func).endswith("pending_xref") and any(k.arg == "reftargetid" for k in n.keywords))
     if c is not None:
@@ -3407,11 +3778,16 @@ def mutants(corpus: Corpus):
     # R3 (renderer): a destination that cannot be a path is a failure and needs its one warning
     f = sx.func("SphinxRenderer.render_link_path")
     iff = find_node(f, lambda n: isinstance(n, ast.If) and isinstance(n.test, ast.Compare) and isinstance(n.test.left, ast.Constant) and isinstance(n.test.left.value, str) and set(n.test.left.value) <= IMPOSSIBLE_PATH_CHARS and n.test.left.value)
+    if iff is None:
+        # since e91b267 the failure test of the path: scheme is the regular-file test
+        iff = find_node(f, lambda n: isinstance(n, ast.If) and any(xref_missing_warning(x.value, f) for x in n.body if isinstance(x, ast.Expr) and isinstance(x.value, ast.Call)))
     w = next((x for x in iff.body if isinstance(x, ast.Expr) and isinstance(x.value, ast.Call) and xref_missing_warning(x.value, f)), None) if iff is not None else None
-    add("c12-unusable-path-silent", "C12.R3", sx, w, "pass", expect="unusable")
+    add("c12-unusable-path-silent", "C12.R3", sx, w, "pass", expect="render_link_path")
+    # revert of e91b267: a download_reference for a file that was never tested
+    add("c12-path-download-without-file-test", "C12.R1", sx, iff, "pass", expect="regular file")
     f = sx.func("SphinxRenderer.render_link_project")
     h = find_node(f, lambda n: isinstance(n, ast.ExceptHandler))
-    if h is not None and iff is not None:
+    if h is not None:
         # the failed lookup (exception) path gives up without warning
         seg = "return self.render_link_url(token)"
         add("c12-project-lookup-error-silent", "C12.R3", sx, h.body[-1], seg, expect="render_link_project")
@@ -3447,4 +3823,13 @@ def mutants(corpus: Corpus):
         add("c12-slug-entry-id-is-slug", "C12.R8", bs, stv.value.elts[1], "slug", expect="docutils assigned")
     else:
         out.append(("c12-slug-entry-id-recomputed", "slug entry store not found"))
+    # --- reverts of the round-10 repairs ---
+    # cfc8ffd: links without text consult anonlabels too
+    f = rf.func("MystReferenceResolver._resolve_ref_nested")
+    fb = find_node(f, lambda n: isinstance(n, ast.If) and any(isinstance(x, ast.Attribute) and x.attr == "anonlabels" for b_ in n.body for x in ast.walk(b_)) and not any(isinstance(x, ast.Attribute) and x.attr == "labels" for b_ in n.body for x in ast.walk(b_)) and "docname" in unparse(n.test))
+    add("c12-untitled-labels-not-consulted", "C12.R9", rf, fb, "pass", expect="anonlabels")
+    # 7aac6f8: titles in the slug registry are re-read after the Locale transform
+    f = tr.func("ResolveAnchorIds.apply")
+    lp = find_node(f, lambda n: isinstance(n, ast.For) and any(isinstance(x, ast.Subscript) and isinstance(x.ctx, ast.Store) and isinstance(x.value, ast.Name) and x.value.id == "slugs" for x in ast.walk(n)))
+    add("c12-slug-titles-not-refreshed", "C12.R8", tr, lp, "pass", expect="re-read")
     return out
